@@ -3,7 +3,7 @@
 //! wire / serde / round-trip checks sweep the full (name x syntax) matrix, so that behaviour
 //! keyed on a particular attribute name or on the shape of a value (user-info in a URI, a
 //! media size name, a MIME type) is exercised and not only structure.
-pub const ATTR_NAMES: [&str; 249] = [
+pub const ATTR_NAMES: [&str; 274] = [
     // operation attributes
     "attributes-charset", "attributes-natural-language", "printer-uri", "job-uri", "job-id", "requesting-user-name",
     "requesting-user-uri", "job-name", "ipp-attribute-fidelity", "document-name", "document-format", "document-natural-language",
@@ -51,6 +51,10 @@ pub const ATTR_NAMES: [&str; 249] = [
     "pwg-raster-document-sheet-back", "job-creation-attributes-supported", "job-constraints-supported", "job-resolvers-supported",
     "job-ids-supported", "which-jobs-supported", "identify-actions-supported", "identify-actions-default", "ippget-event-life",
     "notify-events-supported", "notify-pull-method-supported", "notify-max-events-supported", "notify-lease-duration-supported",
+    // not IPP names at all: field names of the library's own structures and of its serde representation (a derive
+    // attribute such as flatten / rename / tag would make one of them collide)
+    "tag", "attributes", "name", "value", "groups", "header", "payload", "version", "data", "min", "max", "language", "type", "kind",
+    "operation_or_status", "request_id", "units", "cross_feed", "feed", "year", "utc_dir", "Other", "Array", "Collection", "Integer",
     // CUPS
     "device-uri", "printer-is-shared", "printer-type", "printer-type-mask", "member-uris", "member-names", "auth-info-required",
     "job-originating-host-name", "marker-colors", "marker-levels", "marker-names", "marker-types", "ppd-name", "printer-commands",
